@@ -131,6 +131,8 @@ def ev(e, env):
         o = ev(e.value, env)
         if hasattr(o, '__dict__') and e.attr in vars(o):
             return vars(o)[e.attr]
+        if o is None or isinstance(o, (int, float, str, bool, tuple, list, dict)):
+            raise Raised('AttributeError: %s' % e.attr)        # a plain value really has no such attribute
         raise AnalysisError('pure evaluator: attribute %s not modelled' % norm(e))
     if isinstance(e, ast.Tuple):
         return tuple(ev(x, env) for x in e.elts)
